@@ -39,6 +39,7 @@ def run(ctx):
     cases += pairs[::(5 if quick else 1)]
     # every control skeleton up to a size (spec/FamSkel.tla) - label allocation for every nesting and sequencing; thorough: size 3 at top level only
     cases += [c for c in progflow.skel_cases(ctx) if quick or not (c["id"].startswith("skel/3/") and "/func/" in c["id"])]
+    cases += progflow.hist_cases(ctx)        # run-time histories (spec/FamHist.tla), whole
     cases += comprun.accepted(ctx, False, 4 if quick else 1) + comprun.accepted(ctx, True, 4 if quick else 1)
     # the repository's own test programs: their stated expectations calibrate the cmd.exe model
     repo = corpus.cases(ctx, ("C01", "C02", "C03"))
